@@ -333,3 +333,103 @@ def read_jsonl(path):
             if line:
                 out.append(json.loads(line))
     return out
+
+
+# --------------------------------------------------------------------------- trace folding
+# Many checks record real-code executions as ndjson, one event per line, many executions
+# ("cases") concatenated, each introduced by a line {"e": "case", ...}. A trace spec consumes
+# one line per step (variable l = next line to consume). TLC is run with one worker; the
+# trace is accepted iff depth = lines + 1 and no invariant is violated.
+
+import concurrent.futures
+
+
+def split_cases(lines):
+    segs, cur = [], None
+    for ln in lines:
+        if ln.get("e") == "case":
+            cur = [ln]
+            segs.append(cur)
+        elif cur is not None:
+            cur.append(ln)
+    return segs
+
+
+def _fold_once(specdir, module, cfg, segs, timeout, tracefile, extra_files=None, jvm=None):
+    work = tempfile.mkdtemp(prefix="fold.", dir=os.path.dirname(specdir))
+    copy_specs(specdir, work)
+    for k, v in (extra_files or {}).items():
+        shutil.copy(v, os.path.join(work, k))
+    n = 0
+    with open(os.path.join(work, tracefile), "w") as f:
+        for s in segs:
+            for ln in s:
+                f.write(json.dumps(ln) + "\n")
+                n += 1
+    res = tlc(work, module, cfg=cfg, workers=1, timeout=timeout, deadlock=False, jvm=jvm)
+    shutil.rmtree(work, ignore_errors=True)
+    return res, n
+
+
+def _locate(segs, lineno):
+    """index of the segment containing 1-based line number lineno"""
+    n = 0
+    for i, s in enumerate(segs):
+        if lineno <= n + len(s):
+            return i
+        n += len(s)
+    return len(segs) - 1
+
+
+def fold_traces(specdir, module, cfg, segs, timeout=600, tracefile="trace.ndjson", chunks=1,
+                max_rounds=6, extra_files=None, jvm=None):
+    """Validate case segments with a trace spec. Returns dict(accepted=int, rejected=[...],
+    states=int, transitions=int, errors=[...]). A rejected entry is
+    dict(seg=<segment>, kind='invariant'|'stuck', text=..., line_in_seg=int)."""
+    out = {"accepted": 0, "rejected": [], "states": 0, "transitions": 0, "errors": []}
+    if not segs:
+        return out
+    chunks = max(1, min(chunks, len(segs)))
+    parts = [segs[i::chunks] for i in range(chunks)]
+
+    def work(part):
+        acc, rej, st, tr, errs = 0, [], 0, 0, []
+        part = list(part)
+        rounds = 0
+        while part and rounds < max_rounds:
+            rounds += 1
+            res, n = _fold_once(specdir, module, cfg, part, timeout, tracefile, extra_files, jvm)
+            st += res.distinct
+            tr += res.generated
+            if res.timed_out or res.error:
+                errs.append(res.error or "timeout")
+                break
+            if res.violation:
+                m = re.findall(r"^/\\ l = (\d+)", res.out, re.M)
+                lineno = (int(m[-1]) - 1) if m else 1
+                kind = "invariant"
+            elif res.depth < n + 1:
+                lineno = max(res.depth, 1)
+                kind = "stuck"
+            else:
+                acc += len(part)
+                part = []
+                break
+            i = _locate(part, lineno)
+            before = sum(len(s) for s in part[:i])
+            rej.append({"seg": part[i], "kind": kind, "text": res.violation or "trace not accepted by the specification",
+                        "line_in_seg": lineno - before})
+            acc += i  # segments before the rejected one were consumed without complaint
+            part = part[i + 1:]
+        if part and rounds >= max_rounds:
+            errs.append("more than %d rejected segments in one chunk; %d segments left unchecked" % (max_rounds, len(part)))
+        return acc, rej, st, tr, errs
+
+    with concurrent.futures.ThreadPoolExecutor(max_workers=chunks) as ex:
+        for acc, rej, st, tr, errs in ex.map(work, parts):
+            out["accepted"] += acc
+            out["rejected"] += rej
+            out["states"] += st
+            out["transitions"] += tr
+            out["errors"] += errs
+    return out
